@@ -260,7 +260,7 @@ fn word_dump(xs: &mut Xstate) -> Xresult {
 
 fn dump_bitstr_at(xs: &mut Xstate, start: usize, ncols: usize) -> Xresult {
     let s = current_input(xs)?;
-    let end = s.end().min(start + 16 * ncols * 8);
+    let end = s.end().min(start.saturating_add(16 * ncols * 8));
     let ss = s
         .substr(start, end)
         .ok_or_else(|| Xerr::out_of_range(start, s.bits_range()))?;
@@ -492,7 +492,7 @@ fn word_emit(xs: &mut Xstate) -> Xresult {
     let out_ref = xs.bitstr_mod.output;
     let len_ref = xs.bitstr_mod.output_len;
     xs.update_var(len_ref, |old| {
-        let new_len = old.to_usize()? + bs.len();
+        let new_len = old.to_usize()?.checked_add(bs.len()).ok_or_else(|| Xerr::IntegerOverflow)?;
         Ok(Cell::from(new_len))
     })?;
     let out = xs.get_var(out_ref)?;
@@ -537,7 +537,8 @@ fn word_bitstr(xs: &mut Xstate) -> Xresult {
 
 fn word_bytes(xs: &mut Xstate) -> Xresult {
     let n = xs.pop_data()?.to_usize()?;
-    read_bits(xs, n * 8)
+    let nbits = n.checked_mul(8).ok_or_else(|| Xerr::IntegerOverflow)?;
+    read_bits(xs, nbits)
 }
 
 fn rest_bits(xs: &mut Xstate) -> Xresult1<Xbitstr> {
@@ -549,8 +550,7 @@ fn rest_bits(xs: &mut Xstate) -> Xresult1<Xbitstr> {
 fn peek_bits(xs: &mut Xstate, n: usize) -> Xresult1<Xbitstr> {
     let s = current_input(xs)?;
     let start = current_offset(xs)?;
-    let end = start + n;
-    if let Some(ss) = s.substr(start, end) {
+    if let Some(ss) = start.checked_add(n).and_then(|end| s.substr(start, end)) {
         Ok(ss)
     } else {
         let remain = s.end().max(start) - start; 
